@@ -8,6 +8,9 @@
   phase)` reads `len(self)`, `self.cycles`, `self.table` *at the call* and returns a lazy stream
   that keeps the list and the numbers it computed.
 
+  Assigning something that has no `len()` to `tl.table` raises TypeError *after* `_table` was
+  replaced (the setter stores the value first): the object is left broken (`TL.broken`).
+
   A history is a sequence of such operations on a small heap (lists, objects, open streams).
   Mathlib-free; executable.  `denOf c` is the value of the expression `c * 2 * pi`.
 -/
@@ -68,6 +71,7 @@ structure TL (α : Type) where
   tbl : Nat          -- which python list `_table` refers to
   len : Nat          -- `_len`, cached by the `table` setter
   cycles : α
+  broken : Bool      -- `_table` holds something that is not a sequence (a failed assignment left it there)
 
 /-- a stream returned by `TableLookup.__call__`: what the call computed and captured -/
 structure Osc (α : Type) where
@@ -78,6 +82,7 @@ structure Osc (α : Type) where
   phase : Arg α
   pos : Nat          -- samples delivered so far
   dead : Bool        -- an exception went through the generator
+  broken : Bool      -- `tbl` is not a sequence: the first sample raises TypeError
 
 structure Heap (α : Type) where
   lists : List (List α)
@@ -89,6 +94,7 @@ inductive HOp (α : Type) where
   | newList (xs : List α)                         -- a new python list
   | new (l : Nat) (c : α)                         -- `TableLookup(lists[l], c)`
   | setTable (i l : Nat)                          -- `obj_i.table = lists[l]`
+  | setTableUnsized (i : Nat)                     -- `obj_i.table = None` (anything without `len()`): TypeError
   | setCycles (i : Nat) (c : α)                   -- `obj_i.cycles = c`
   | setItem (l : Nat) (k : Int) (v : α)           -- `lists[l][k] = v`
   | append (l : Nat) (v : α)                      -- `lists[l].append(v)`
@@ -121,17 +127,28 @@ inductive Obs (α : Type) where
 /-- a new object with a new list: what every operator returns -/
 def Heap.alloc (h : Heap α) (xs : List α) (c : α) : Heap α × Obs α :=
   ({ h with lists := h.lists ++ [xs],
-            objs := h.objs ++ [{ tbl := h.lists.length, len := xs.length, cycles := c }] },
+            objs := h.objs ++ [{ tbl := h.lists.length, len := xs.length, cycles := c, broken := false }] },
    .ref h.objs.length)
 
-/-- object `i` and the current contents of its list -/
+/-- object `i` and the current contents of its list (`none`: no such object, or its `_table` is
+    not a sequence) -/
 def Heap.obj? (h : Heap α) (i : Nat) : Option (TL α × List α) :=
   match h.objs[i]? with
   | none => none
   | some o =>
-    match h.lists[o.tbl]? with
-    | none => none
-    | some xs => some (o, xs)
+    if o.broken then none
+    else
+      match h.lists[o.tbl]? with
+      | none => none
+      | some xs => some (o, xs)
+
+/-- the exception of an operation that needs the table of object `i` and cannot get it:
+    TypeError when `_table` is not a sequence (`BadRef`: the history names an object that does not
+    exist — never generated) -/
+def Heap.whyNot (h : Heap α) (i : Nat) : String :=
+  match h.objs[i]? with
+  | some o => if o.broken then "TypeError" else "BadRef"
+  | none => "BadRef"
 
 /-- one step.  A failing step (`.err`) leaves the heap as it was. -/
 def step (denOf : α → α) (h : Heap α) : HOp α → Heap α × Obs α
@@ -139,12 +156,18 @@ def step (denOf : α → α) (h : Heap α) : HOp α → Heap α × Obs α
   | .new l c =>
     match h.lists[l]? with
     | none => (h, .err "BadRef")
-    | some xs => ({ h with objs := h.objs ++ [{ tbl := l, len := xs.length, cycles := c }] },
+    | some xs => ({ h with objs := h.objs ++ [{ tbl := l, len := xs.length, cycles := c, broken := false }] },
                   .ref h.objs.length)
   | .setTable i l =>
     match h.objs[i]?, h.lists[l]? with
-    | some o, some xs => ({ h with objs := h.objs.set i { o with tbl := l, len := xs.length } }, .unit)
+    | some o, some xs =>
+      ({ h with objs := h.objs.set i { o with tbl := l, len := xs.length, broken := false } }, .unit)
     | _, _ => (h, .err "BadRef")
+  | .setTableUnsized i =>
+    -- `self._table = value` is done, then `self._len = len(value)` raises
+    match h.objs[i]? with
+    | some o => ({ h with objs := h.objs.set i { o with broken := true } }, .err "TypeError")
+    | none => (h, .err "BadRef")
   | .setCycles i c =>
     match h.objs[i]? with
     | some o => ({ h with objs := h.objs.set i { o with cycles := c } }, .unit)
@@ -172,27 +195,28 @@ def step (denOf : α → α) (h : Heap α) : HOp α → Heap α × Obs α
       if o1.cycles ≠ o2.cycles then (h, .err "ValueError")
       else if o1.len ≠ o2.len then (h, .err "ValueError")
       else h.alloc (List.zipWith op.app t1 t2) o1.cycles
-    | _, _ => (h, .err "BadRef")
+    | none, _ => (h, .err (h.whyNot i))
+    | _, none => (h, .err (h.whyNot j))
   | .scalar op i x reflected known =>
     match h.obj? i with
-    | none => (h, .err "BadRef")
+    | none => (h, .err (h.whyNot i))
     | some (o, t) =>
       if known then h.alloc (tblScalar op t x reflected) o.cycles
       else (h, .err "NotImplementedError")
   | .neg i =>
     match h.obj? i with
-    | none => (h, .err "BadRef")
+    | none => (h, .err (h.whyNot i))
     | some (o, t) => h.alloc (tblNeg t) o.cycles
   | .normalize i =>
     match h.obj? i with
-    | none => (h, .err "BadRef")
+    | none => (h, .err (h.whyNot i))
     | some (o, t) =>
       match tblNormalize t with
       | .error e => (h, .err e)
       | .ok r => h.alloc r o.cycles
   | .harmonize i harm =>
     match h.obj? i with
-    | none => (h, .err "BadRef")
+    | none => (h, .err (h.whyNot i))
     | some (o, t) => h.alloc (tblHarmonizeLen t o.len harm) o.cycles
   | .call i freq phase =>
     match h.objs[i]? with
@@ -200,7 +224,8 @@ def step (denOf : α → α) (h : Heap α) : HOp α → Heap α × Obs α
     | some o =>
       if denOf o.cycles = 0 then (h, .err "ZeroDivisionError")
       else ({ h with oscs := h.oscs ++ [{ tbl := o.tbl, len := o.len, den := denOf o.cycles,
-                                          freq := freq, phase := phase, pos := 0, dead := false }] },
+                                          freq := freq, phase := phase, pos := 0, dead := false,
+                                          broken := o.broken }] },
             .ref h.oscs.length)
   | .read s k =>
     match h.oscs[s]? with
@@ -212,13 +237,15 @@ def step (denOf : α → α) (h : Heap α) : HOp α → Heap α × Obs α
         | none => (h, .err "BadRef")
         | some xs =>
           let idxs := (oscPositions o.len o.den o.freq o.phase (o.pos + k)).drop o.pos
-          let r := takeOk (idxs.map (lookupAtLen xs o.len))
-          let status := if r.2 then "IndexError" else if r.1.length < k then "stop" else "fuel"
+          -- `tbl[int(idx)]` on something that is not a sequence: TypeError at the first sample
+          let r := if o.broken then ([], !idxs.isEmpty) else takeOk (idxs.map (lookupAtLen xs o.len))
+          let status := if r.2 then (if o.broken then "TypeError" else "IndexError")
+                        else if r.1.length < k then "stop" else "fuel"
           ({ h with oscs := h.oscs.set s { o with pos := o.pos + r.1.length, dead := r.2 } },
            .samples r.1 status)
   | .getitem i idx =>
     match h.obj? i with
-    | none => (h, .err "BadRef")
+    | none => (h, .err (h.whyNot i))
     | some (o, t) =>
       match getItemLen t o.len idx with
       | none => (h, .err "IndexError")
@@ -230,10 +257,11 @@ def step (denOf : α → α) (h : Heap α) : HOp α → Heap α × Obs α
   | .eq i j =>
     match h.obj? i, h.obj? j with
     | some (o1, t1), some (o2, t2) => (h, .bool (decide (o1.cycles = o2.cycles) && decide (t1 = t2)))
-    | _, _ => (h, .err "BadRef")
+    | none, _ => (h, .err (h.whyNot i))
+    | _, none => (h, .err (h.whyNot j))
   | .table i =>
     match h.obj? i with
-    | none => (h, .err "BadRef")
+    | none => (h, .err (h.whyNot i))
     | some (o, t) => (h, .table t o.cycles)
 
 /-- the heap after a history -/
